@@ -88,6 +88,7 @@ class Module:
         self.source = src.decode('utf-8', 'replace')
         try:
             self.tree = ast.parse(self.source, filename=str(path))
+            self.orig_tree = ast.parse(self.source, filename=str(path))
         except SyntaxError as e:
             raise AnalysisError('syntax error in %s: %s' % (self.rel, e))
         self.lines = self.source.splitlines()
@@ -142,7 +143,7 @@ ROLE_HINTS = {
 
 
 class Repo:
-    def __init__(self, root, package='topsim', extra_dirs=()):
+    def __init__(self, root, package='topsim', extra_dirs=(), normalise=True):
         self.root = Path(root)
         pkg = self.root / package
         if not pkg.is_dir():
@@ -156,13 +157,33 @@ class Repo:
             dd = self.root / d
             if dd.is_dir():
                 files += sorted(dd.rglob('*.py'))
+        mods = []
         for f in files:
             if '__pycache__' in f.parts:
                 continue
-            m = Module(self.root, f)
+            mods.append(Module(self.root, f))
+        # source normalisation (sa/normalize.py): needs every class for helper lookup
+        self.normalised = {}
+        if normalise:
+            from .normalize import normalize_module
+            from .norm import Canon
+            allc = {}
+            for m in mods:
+                for n in m.tree.body:
+                    if isinstance(n, ast.ClassDef):
+                        allc.setdefault(n.name, n)
+            for m in mods:
+                try:
+                    cnt = normalize_module(m.tree, Canon.NO_INLINE, allc)
+                except RecursionError:
+                    cnt = {}
+                for k, v in cnt.items():
+                    self.normalised[k] = self.normalised.get(k, 0) + v
+        for m in mods:
             self.modules[m.name] = m
             self._index_module(m)
         self._link_mro()
+        self._mark_inlined()
         self.attr_types = {}
         self.elem_types = {}
         self._infer_attr_types()
@@ -224,6 +245,26 @@ class Repo:
                 return True
         return None
 
+    def _mark_inlined(self):
+        """helpers whose every call site was inlined by the normaliser are judged where they
+        were inlined, not on their own"""
+        remaining = {}
+        for f in self.functions.values():
+            for n in _walk_no_nested(f.node):
+                if isinstance(n, ast.Call) and isinstance(n.func, ast.Attribute) and isinstance(
+                        n.func.value, ast.Name) and n.func.value.id == 'self' and f.cls is not None:
+                    m = f.cls.find_method(n.func.attr)
+                    if m is not None and m is not f:
+                        remaining[m.qual] = remaining.get(m.qual, 0) + 1
+                elif isinstance(n, ast.Call) and isinstance(n.func, ast.Attribute):
+                    for c in self.classes.values():
+                        if n.func.attr in c.methods:
+                            q = c.methods[n.func.attr].qual
+                            if not (isinstance(n.func.value, ast.Name) and n.func.value.id == 'self'):
+                                remaining[q] = remaining.get(q, 0) + 1
+        for f in self.functions.values():
+            f.inlined = bool(self.normalised.get(f.qual)) and not remaining.get(f.qual)
+
     def cls(self, name):
         c = self.classes.get(name)
         if c is None:
@@ -256,9 +297,11 @@ class Repo:
                 out.append(c)
         return sorted(out, key=lambda c: c.name)
 
-    def all_functions(self, package_prefix='topsim'):
+    def all_functions(self, package_prefix='topsim', include_inlined=False):
         for q, f in sorted(self.functions.items()):
             if f.module.name.startswith(package_prefix):
+                if getattr(f, 'inlined', False) and not include_inlined:
+                    continue
                 yield f
 
     def digests(self, prefix='topsim'):
